@@ -90,3 +90,25 @@ package tax
 //@   ensures ts == nil ==> len(r) == 0
 //@   ensures ts != nil ==> len(r) == len(ts.List) && fresh(r) && (forall i int :: 0 <= i && i < len(r) ==> r[i] == ts.List[i].Key)
 //@   loop 1 invariant forall i int :: 0 <= i && i < idx ==> keys[i] == ts.List[i].Key
+//
+//@ func (em Extensions) Merge(other) (r)
+//@   ensures em == nil ==> r == other
+//@   ensures em != nil && other == nil ==> r == em
+//@   ensures [fresh] em != nil && other != nil ==> fresh(r) && (forall k cbc.Key :: has(r, k) <==> has(em, k) || has(other, k)) && (forall k cbc.Key :: has(other, k) ==> r[k] == other[k]) && (forall k cbc.Key :: has(em, k) && !has(other, k) ==> r[k] == em[k])
+//@   loop 1 invariant fresh(nem) && nem != nil && (forall k cbc.Key :: has(nem, k) <==> $visited[k]) && (forall k cbc.Key :: $visited[k] ==> nem[k] == em[k]) && (forall k cbc.Key :: $visited[k] ==> has(em, k))
+//@   loop 2 invariant fresh(nem) && nem != nil && (forall k cbc.Key :: has(nem, k) <==> has(em, k) || $visited[k]) && (forall k cbc.Key :: $visited[k] ==> nem[k] == other[k] && has(other, k)) && (forall k cbc.Key :: has(em, k) && !$visited[k] ==> nem[k] == em[k])
+//
+//@ func CleanExtensions(em) (r)
+//@   ensures em == nil ==> r == nil
+//@   ensures [fresh] r != nil ==> fresh(r) && (forall k cbc.Key :: has(r, k) <==> has(em, k) && em[k] != "") && (forall k cbc.Key :: has(r, k) ==> r[k] == em[k])
+//@   loop 1 invariant fresh(nem) && nem != nil && (forall k cbc.Key :: has(nem, k) <==> $visited[k] && em[k] != "") && (forall k cbc.Key :: has(nem, k) ==> nem[k] == em[k]) && (forall k cbc.Key :: $visited[k] ==> has(em, k))
+//
+// the receiver of CorrectionDefinition.Merge is the caller's own working copy
+// (bill.correctionDef starts from a fresh one); the argument is a shared,
+// registered definition and must never be written
+//@ func (cd *CorrectionDefinition) Merge(other) (r)
+//@   modifies CorrectionDefinition.CopyTax, elem(cbc.Key)
+//@   footprint cd
+//@   ensures cd == nil ==> r == other
+//@   ensures cd != nil && other == nil ==> r == cd
+//@   ensures [other] other != nil ==> other.CopyTax == old(other.CopyTax) || other == cd
